@@ -6,6 +6,7 @@ package astutil
 
 import (
 	"fmt"
+	"reflect"
 
 	"github.com/open2b/scriggo/ast"
 )
@@ -26,6 +27,9 @@ func Walk(v Visitor, node ast.Node) {
 	}
 
 	if node == nil {
+		return
+	}
+	if rv := reflect.ValueOf(node); rv.Kind() == reflect.Ptr && rv.IsNil() {
 		return
 	}
 
@@ -153,9 +157,11 @@ func Walk(v Visitor, node ast.Node) {
 
 	case *ast.FuncType:
 		for _, param := range n.Parameters {
+			Walk(v, param.Ident)
 			Walk(v, param.Type)
 		}
 		for _, res := range n.Result {
+			Walk(v, res.Ident)
 			Walk(v, res.Type)
 		}
 
@@ -200,6 +206,7 @@ func Walk(v Visitor, node ast.Node) {
 		}
 
 	case *ast.Select:
+		Walk(v, n.LeadingText)
 		for _, c := range n.Cases {
 			Walk(v, c)
 		}
@@ -245,6 +252,7 @@ func Walk(v Visitor, node ast.Node) {
 	case *ast.Switch:
 		Walk(v, n.Init)
 		Walk(v, n.Expr)
+		Walk(v, n.LeadingText)
 		for _, c := range n.Cases {
 			Walk(v, c)
 		}
@@ -256,10 +264,27 @@ func Walk(v Visitor, node ast.Node) {
 
 	case *ast.TypeAssertion:
 		Walk(v, n.Expr)
+		Walk(v, n.Type)
+
+	case *ast.TypeDeclaration:
+		Walk(v, n.Ident)
+		Walk(v, n.Type)
+
+	case *ast.StructType:
+		for _, field := range n.Fields {
+			for _, ident := range field.Idents {
+				Walk(v, ident)
+			}
+			Walk(v, field.Type)
+		}
+
+	case *ast.Raw:
+		Walk(v, n.Text)
 
 	case *ast.TypeSwitch:
 		Walk(v, n.Init)
 		Walk(v, n.Assignment)
+		Walk(v, n.LeadingText)
 		for _, c := range n.Cases {
 			Walk(v, c)
 		}
@@ -288,6 +313,10 @@ func Walk(v Visitor, node ast.Node) {
 
 	case *ast.Extends:
 	case *ast.Import:
+		Walk(v, n.Ident)
+		for _, ident := range n.For {
+			Walk(v, ident)
+		}
 	case *ast.Render:
 	// Nothing to do, visiting the expanded tree is done
 	// by the Visit function if necessary.
@@ -296,7 +325,6 @@ func Walk(v Visitor, node ast.Node) {
 		*ast.Identifier,
 		*ast.Comment,
 		*ast.Text,
-		*ast.Raw,
 		*ast.Placeholder,
 		*ast.Interface,
 		*ast.Fallthrough:
